@@ -78,7 +78,17 @@ func genC20(tier string, r *rng, emit func(string)) {
 	sample(1, func(t string, r *rng, e func(string)) { genEW("C06", t, r, e) })
 	sample(2, func(t string, r *rng, e func(string)) { genEW("C07", t, r, e) })
 	sample(1, gens["C09"])
-	sample(12, gens["C01"])
+	sampleC01 := 12
+	if tier == "thorough" {
+		sampleC01 = 200 // the thorough C01 generator alone emits ~11M cases
+	}
+	i01 := 0
+	gens["C01"](tier, r, func(c string) {
+		i01++
+		if i01%sampleC01 == 0 {
+			withEngines(c)
+		}
+	})
 	gens["C01"](tier, r, func(c string) { // all of the inverse index arithmetic (divmod)
 		if strings.HasPrefix(c, "itol ") {
 			emit(c)
